@@ -42,6 +42,71 @@ func kvGroup(p wire.Path, doc wire.Value) (Group, error) {
 	return g, nil
 }
 
+// c16Universe: the conversion and numeric methods on the boundary grid, on
+// regular and irregular string spellings, on non-numbers and containers, and
+// .decimal(p, s) over valid and invalid arguments (shared with C05).
+func c16Universe(slots []slot, thorough bool) (*ExecUniverse, []slot) {
+	// string spellings: the decimal text of every number, and irregular ones
+	texts := []string{"NaN", "nan", "inf", "-inf", "Infinity", " 1", "1 ", "1e2", "1E2", "1.5e1", ".5", "5.", "-.5", "+1", "--1", "", "abc", "1.5", "-1.5",
+		"2147483647", "2147483648", "-2147483648", "-2147483649", "9223372036854775807", "9223372036854775808", "-9223372036854775808", "-9223372036854775809",
+		"1e400", "-1e400", "1e-400", "0", "-0", "00", "1", "t", "T", "true", "TRUE", "True", "f", "false", "FALSE", "y", "yes", "YES", "n", "no", "on", "ON", "off", "OFF", "o", "x", "2", "10"}
+	seen := map[string]bool{}
+	for _, t := range texts {
+		seen[t] = true
+	}
+	for _, s := range slots {
+		if s.V.Rep == "j" {
+			t := wire.Str(s.V.Tx)
+			if !seen[t] {
+				seen[t] = true
+				texts = append(texts, t)
+			}
+		}
+	}
+	inputs := append([]slot{}, slots...)
+	for _, t := range texts {
+		inputs = append(inputs, slot{V: wire.StrV(t)})
+	}
+	for _, v := range []wire.Value{wire.Null(), wire.Bool(true), wire.Bool(false), wire.Arr(), wire.Obj(), wire.Arr(wire.Float(1.5), wire.StrV("2")),
+		wire.Obj("a", wire.Float(1)), wire.JNum("1e400"), wire.JNum("92233720368547758070"),
+		// nested arrays: lax unwraps one level only
+		wire.Arr(wire.Arr(wire.Float(1.5))), wire.Arr(wire.Float(1.5), wire.Arr(wire.Float(2.5))), wire.Arr(wire.Arr(wire.StrV("1"), wire.Bool(true)))} {
+		inputs = append(inputs, slot{V: v})
+	}
+	u := &ExecUniverse{}
+	for _, in := range inputs {
+		head, vars := operand(in, "a")
+		for _, m := range convMethods {
+			for _, lax := range []bool{true, false} {
+				u.addCase(wire.Path{Lax: lax, Chain: append(append([]wire.Node{}, head...), methodNode(m))}, wire.Null(), vars)
+			}
+		}
+		u.addCase(wire.Path{Lax: true, Chain: append(append([]wire.Node{}, head...), decimalNode(0, 0, 0))}, wire.Null(), vars)
+	}
+	// .decimal(p, s): every precision / scale pair on a subset of the grid
+	precs := []int64{1, 2, 3, 15, 1000, 1001, 0, -1, 2147483648}
+	scales := []int64{-1001, -2, -1, 0, 1, 2, 3, 1001, 20, -20}
+	if thorough {
+		scales = append(scales, 1000, -1000)
+	}
+	decIn := []slot{}
+	for _, in := range inputs {
+		if in.V.T == "num" && in.V.Rep != "i" || in.V.T == "str" && len(in.V.S) < 6 || in.V.T == "arr" {
+			decIn = append(decIn, in)
+		}
+	}
+	for _, in := range decIn {
+		head, vars := operand(in, "a")
+		for _, p := range precs {
+			u.addCase(wire.Path{Lax: true, Chain: append(append([]wire.Node{}, head...), decimalNode(1, p, 0))}, wire.Null(), vars)
+			for _, s := range scales {
+				u.addCase(wire.Path{Lax: true, Chain: append(append([]wire.Node{}, head...), decimalNode(2, p, s))}, wire.Null(), vars)
+			}
+		}
+	}
+	return u, inputs
+}
+
 func init() {
 	checks["C16"] = func(rc *RunCtx) {
 		rc.Ev.Assumptions = stdAssumptions
@@ -56,64 +121,7 @@ func init() {
 		if slots == nil {
 			return
 		}
-		// string spellings: the decimal text of every number, and irregular ones
-		texts := []string{"NaN", "nan", "inf", "-inf", "Infinity", " 1", "1 ", "1e2", "1E2", "1.5e1", ".5", "5.", "-.5", "+1", "--1", "", "abc", "1.5", "-1.5",
-			"2147483647", "2147483648", "-2147483648", "-2147483649", "9223372036854775807", "9223372036854775808", "-9223372036854775808", "-9223372036854775809",
-			"1e400", "-1e400", "1e-400", "0", "-0", "00", "1", "t", "T", "true", "TRUE", "True", "f", "false", "FALSE", "y", "yes", "YES", "n", "no", "on", "ON", "off", "OFF", "o", "x", "2", "10"}
-		seen := map[string]bool{}
-		for _, t := range texts {
-			seen[t] = true
-		}
-		for _, s := range slots {
-			if s.V.Rep == "j" {
-				t := wire.Str(s.V.Tx)
-				if !seen[t] {
-					seen[t] = true
-					texts = append(texts, t)
-				}
-			}
-		}
-		inputs := append([]slot{}, slots...)
-		for _, t := range texts {
-			inputs = append(inputs, slot{V: wire.StrV(t)})
-		}
-		for _, v := range []wire.Value{wire.Null(), wire.Bool(true), wire.Bool(false), wire.Arr(), wire.Obj(), wire.Arr(wire.Float(1.5), wire.StrV("2")),
-			wire.Obj("a", wire.Float(1)), wire.JNum("1e400"), wire.JNum("92233720368547758070"),
-			// nested arrays: lax unwraps one level only
-			wire.Arr(wire.Arr(wire.Float(1.5))), wire.Arr(wire.Float(1.5), wire.Arr(wire.Float(2.5))), wire.Arr(wire.Arr(wire.StrV("1"), wire.Bool(true)))} {
-			inputs = append(inputs, slot{V: v})
-		}
-		u := &ExecUniverse{}
-		for _, in := range inputs {
-			head, vars := operand(in, "a")
-			for _, m := range convMethods {
-				for _, lax := range []bool{true, false} {
-					u.addCase(wire.Path{Lax: lax, Chain: append(append([]wire.Node{}, head...), methodNode(m))}, wire.Null(), vars)
-				}
-			}
-			u.addCase(wire.Path{Lax: true, Chain: append(append([]wire.Node{}, head...), decimalNode(0, 0, 0))}, wire.Null(), vars)
-		}
-		// .decimal(p, s): every precision / scale pair on a subset of the grid
-		precs := []int64{1, 2, 3, 15, 1000, 1001, 0, -1, 2147483648}
-		scales := []int64{-1001, -2, -1, 0, 1, 2, 3, 1001, 20, -20}
-		if rc.Tier == "thorough" {
-			scales = append(scales, 1000, -1000)
-		}
-		decIn := []slot{}
-		for _, in := range inputs {
-			if in.V.T == "num" && in.V.Rep != "i" || in.V.T == "str" && len(in.V.S) < 6 || in.V.T == "arr" {
-				decIn = append(decIn, in)
-			}
-		}
-		for _, in := range decIn {
-			head, vars := operand(in, "a")
-			for _, p := range precs {
-				u.addCase(wire.Path{Lax: true, Chain: append(append([]wire.Node{}, head...), decimalNode(1, p, 0))}, wire.Null(), vars)
-				for _, s := range scales {
-					u.addCase(wire.Path{Lax: true, Chain: append(append([]wire.Node{}, head...), decimalNode(2, p, s))}, wire.Null(), vars)
-				}
-			}
-		}
+		u, inputs := c16Universe(slots, rc.Tier == "thorough")
 		rc.cov("exhaustive", true)
 		rc.cov("rule", "boundary grid of 32 numbers (int32/int64 limits +-1, halves around them, 2^53, 2^63, 1e308, 5e-324, small integers, halves, quarters) each as int64 literal, float64 and json.Number, their decimal spellings as strings, 55 irregular strings (NaN/inf spellings, padded, exponent, boolean spellings), null/booleans/containers, out-of-range json.Number -> x 11 methods x {lax, strict}; .decimal(p, s) for 9 precisions x 10-12 scales (valid, boundary, invalid, out of int32) on every non-literal number and short string; string round-trip groups; keyvalue groups on random objects executed twice on the same document instance")
 		rc.cov("inputs", len(inputs))
